@@ -468,3 +468,12 @@ mod tests {
         );
     }
 }
+
+/// Verification access shims (compiled only by the Kani model checker).
+#[cfg(kani)]
+pub mod verif_access {
+    /// Calls the private `extract_checksum`.
+    pub fn extract_checksum(raw: &[u8]) -> (&[u8], Option<String>) {
+        super::extract_checksum(raw)
+    }
+}
